@@ -116,11 +116,11 @@ theorem step_block (ih : Main P T cfg n) (ss : List Stmt) (st : St V)
     execBlock P cfg (n + 1) ss st = execBlock P plain (n + 1) ss st ∧ Inv T (execBlock P plain (n + 1) ss st).2 ∧
     ((execBlock P plain (n + 1) ss st).1 = .ok .normal → afterStmts true ss = true) := by
   simp only [execBlock]
-  have hinv1 : Inv T { st with env := [] :: st.env, fns := hoist ss :: st.fns } :=
+  have hinv1 : Inv T { st with env := ⟨blockTag P.sscope ss, []⟩ :: st.env, fns := hoist ss :: st.fns } :=
     ⟨FnsOk.push h.1 (hoist_ok true ss hcs), h.2⟩
   have h1 := ih.stmts ss _ hcs hinv1
   rw [h1.1]
-  generalize execStmts P plain n ss { st with env := [] :: st.env, fns := hoist ss :: st.fns } = r at h1 ⊢
+  generalize execStmts P plain n ss { st with env := ⟨blockTag P.sscope ss, []⟩ :: st.env, fns := hoist ss :: st.fns } = r at h1 ⊢
   obtain ⟨r1, st2⟩ := r
   exact ⟨by first | rfl | trivial, ⟨FnsOk.drop h1.2.1.1, h1.2.1.2⟩, h1.2.2⟩
 
@@ -181,7 +181,7 @@ theorem step_stmt (ih : Main P T cfg n) : ∀ (s : Stmt) (st : St V), ConsStmt T
       | error er => exact ⟨by first | rfl | trivial, h1.2, by intro hn; cases hn⟩
       | ok v =>
         simp only []
-        cases b.bind (fun id => assignEnv id v st1.env) with
+        cases b.bind (fun id => assignEnv P.dscope id v st1.env) with
         | none => exact ⟨by first | rfl | trivial, h1.2, by intro hn; cases hn⟩
         | some env' => exact ⟨by first | rfl | trivial, h1.2, by intro _; simp [afterStmt]⟩
   | .assignIndex t e _ _, st, _, h => by
@@ -207,7 +207,7 @@ theorem step_stmt (ih : Main P T cfg n) : ∀ (s : Stmt) (st : St V), ConsStmt T
           | error er => exact ⟨by first | rfl | trivial, h2.2, by intro hn; cases hn⟩
           | ok pvs =>
             simp only []
-            cases lookupEnv root st2.env with
+            cases lookupEnv P.dscope root st2.env with
             | none => exact ⟨by first | rfl | trivial, h2.2, by intro hn; cases hn⟩
             | some old =>
               simp only []
@@ -215,7 +215,7 @@ theorem step_stmt (ih : Main P T cfg n) : ∀ (s : Stmt) (st : St V), ConsStmt T
               | error er => exact ⟨by first | rfl | trivial, h2.2, by intro hn; cases hn⟩
               | ok new =>
                 simp only []
-                cases assignEnv root new st2.env with
+                cases assignEnv P.dscope root new st2.env with
                 | none => exact ⟨by first | rfl | trivial, h2.2, by intro hn; cases hn⟩
                 | some env' => exact ⟨by first | rfl | trivial, h2.2, by intro _; simp [afterStmt]⟩
   | .ifS c (.mk t _) els _ _, st, hs, h => by
@@ -357,7 +357,7 @@ theorem step_userCall (hc : Harmless T cfg) (ih : Main P T cfg n) (args : List E
               match bindParams fd.params vs with
               | none => (.error .panic, st1)
               | some slots =>
-                  match execBlock P cfg n fd.body { st1 with env := slots :: st1.env, fns := [] :: st1.fns } with
+                  match execBlock P cfg n fd.body { st1 with env := ⟨paramTag P.dscope fd.params, slots⟩ :: st1.env, fns := [] :: st1.fns } with
                   | (.error e, st3) => (.error e, { st3 with env := st3.env.drop 1, fns := st3.fns.drop 1 })
                   | (.ok fl, st3) =>
                       match fl with
@@ -373,7 +373,7 @@ theorem step_userCall (hc : Harmless T cfg) (ih : Main P T cfg n) (args : List E
               match bindParams fd.params vs with
               | none => (.error .panic, st1)
               | some slots =>
-                  match execBlock P plain n fd.body { st1 with env := slots :: st1.env, fns := [] :: st1.fns } with
+                  match execBlock P plain n fd.body { st1 with env := ⟨paramTag P.dscope fd.params, slots⟩ :: st1.env, fns := [] :: st1.fns } with
                   | (.error e, st3) => (.error e, { st3 with env := st3.env.drop 1, fns := st3.fns.drop 1 })
                   | (.ok fl, st3) =>
                       match fl with
@@ -389,7 +389,7 @@ theorem step_userCall (hc : Harmless T cfg) (ih : Main P T cfg n) (args : List E
               match bindParams fd.params vs with
               | none => (.error .panic, st1)
               | some slots =>
-                  match execBlock P plain n fd.body { st1 with env := slots :: st1.env, fns := [] :: st1.fns } with
+                  match execBlock P plain n fd.body { st1 with env := ⟨paramTag P.dscope fd.params, slots⟩ :: st1.env, fns := [] :: st1.fns } with
                   | (.error e, st3) => (.error e, { st3 with env := st3.env.drop 1, fns := st3.fns.drop 1 })
                   | (.ok fl, st3) =>
                       match fl with
@@ -416,12 +416,12 @@ theorem step_userCall (hc : Harmless T cfg) (ih : Main P T cfg n) (args : List E
       cases bindParams fd.params vs with
       | none => exact ⟨rfl, h1.2⟩
       | some slots =>
-        have hinv2 : Inv T { st1 with env := slots :: st1.env, fns := [] :: st1.fns } :=
+        have hinv2 : Inv T { st1 with env := ⟨paramTag P.dscope fd.params, slots⟩ :: st1.env, fns := [] :: st1.fns } :=
           ⟨FnsOk.push h1.2.1 (by intro fd hfd; cases hfd), h1.2.2⟩
         have h2 := ih.block fd.body _ hbody hinv2
         simp only []
         rw [h2.1]
-        generalize execBlock P plain n fd.body { st1 with env := slots :: st1.env, fns := [] :: st1.fns } = r3 at h2 ⊢
+        generalize execBlock P plain n fd.body { st1 with env := ⟨paramTag P.dscope fd.params, slots⟩ :: st1.env, fns := [] :: st1.fns } = r3 at h2 ⊢
         obtain ⟨r31, st3⟩ := r3
         have hpop : Inv T { st3 with env := st3.env.drop 1, fns := st3.fns.drop 1 } :=
           ⟨FnsOk.drop h2.2.1.1, h2.2.1.2⟩
@@ -511,7 +511,7 @@ theorem step_expr (hc : Harmless T cfg) (ih : Main P T cfg n) : ∀ (e : Expr) (
             | error er => exact ⟨by first | rfl | trivial, h2.2⟩
             | ok pvs =>
               simp only []
-              cases lookupEnv root st2.env with
+              cases lookupEnv P.dscope root st2.env with
               | none => exact ⟨by first | rfl | trivial, h2.2⟩
               | some old =>
                 simp only []
@@ -520,7 +520,7 @@ theorem step_expr (hc : Harmless T cfg) (ih : Main P T cfg n) : ∀ (e : Expr) (
                 | ok nr =>
                   obtain ⟨new, res⟩ := nr
                   simp only []
-                  cases assignEnv root new st2.env with
+                  cases assignEnv P.dscope root new st2.env with
                   | none => exact ⟨by first | rfl | trivial, h2.2⟩
                   | some env' => exact ⟨by first | rfl | trivial, h2.2⟩
   | .call (.index a i s1 s2) args fn sp, st, h => by simp only [evalExpr]; exact generic ih _ st h
